@@ -282,7 +282,16 @@ def run(prop):
         cases = [rec["case"]]
         emitted = 1
     else:
-        allc = generate(ck)
+        cache = os.environ.get("VERIF_REM_CACHE")       # development aid for mutation runs only: reuse the emitted scenarios
+        if cache and os.path.exists(cache):
+            allc = [json.loads(l) for l in open(cache)]
+            vf.log("[cache] %d scenarios from %s (TLC generation skipped)" % (len(allc), cache))
+        else:
+            allc = generate(ck)
+            if cache:
+                with open(cache, "w") as f:
+                    for c in allc:
+                        f.write(json.dumps(c) + "\n")
         emitted = len(allc)
         cases = select(ck, allc)
         rng = random.Random(ck.seed * 7919 + 5)
